@@ -902,7 +902,7 @@ fn check_case(sup: &mut Sup, rng: &mut Rng, n: usize, tier: &str, stats: &mut St
 fn generate(tier: &str, out_path: &str) -> i32 {
     ensure_data(false);
     let seed = seed_from_env();
-    let cases = std::env::var("VERIF_CAPI_CASES").ok().and_then(|s| s.parse().ok()).unwrap_or(if tier == "thorough" { 1500 } else { 120 });
+    let cases = std::env::var("VERIF_CAPI_CASES").ok().and_then(|s| s.parse().ok()).unwrap_or(if tier == "thorough" { 6000 } else { 400 });
     let limit_ms = std::env::var("VERIF_CAPI_WATCHDOG_MS").ok().and_then(|s| s.parse().ok()).unwrap_or(20_000);
     let threads = 8usize;
     let mut handles = vec![];
